@@ -150,6 +150,10 @@ func (r *run) dispatch(e Ev) {
 		}
 		r.probe("group")
 	case "sync":
+		if a := r.actor(e.A); a.gone && !a.realtime && r.on("iso") {
+			r.ghostSync(a)
+			return
+		}
 		r.syncEvent([]*actor{r.actor(e.A)}, e)
 	case "par":
 		var as []*actor
